@@ -1,5 +1,5 @@
 (* C14 -- one-shot request parsing agrees with the incremental connection parser. *)
-From MH Require Import proofs.Total_proofs proofs.Grammar_proofs proofs.Oneshot_proofs.
+From MH Require Import proofs.Total_proofs proofs.Grammar_proofs proofs.Oneshot_proofs proofs.Oneshot_conv.
 
 (* the one-shot parser additionally rejects slices whose length reaches the caller's maximum *)
 Theorem C14_maxlen : forall bs n,
@@ -45,10 +45,41 @@ Theorem C14_split_crlf : forall l,
   split_crlf l <> [] /\ join_crlf (split_crlf l) = l /\ Forall (fun x => find_crlf x = None) (split_crlf l).
 Proof. exact split_crlf_spec. Qed.
 
-(* PARTIAL.  The converse implication (the connection turns a slice into exactly one request with
-   nothing left over => the one-shot parser accepts it with the same result, except GET with a body)
-   is not proved as a theorem; it is decided on every run by executing both entry points of the
-   implementation on the same slices and comparing field by field. *)
+(* conversely: whenever the connection parser turns a slice into exactly one request with nothing
+   left over (the slice IS one well-formed encoding, cf. C02_accept_iff), the one-shot parser accepts
+   it with the same result -- except GET requests that declare a body, which only it rejects *)
+Theorem C14_conn_implies_oneshot : forall BUF, (2 <= BUF)%nat -> forall L bs rl hd b,
+  exactly_one BUF L bs rl hd b ->
+  request_try_from bs None =
+    if negb (h_content_length hd =? 0) && method_eqb (rl_method rl) Get then OErr InvalidRequest
+    else OOk rl hd b.
+Proof. exact conn_implies_oneshot. Qed.
+Check ((fun BUF L bs rl hd b => eq_refl) : forall BUF L bs rl hd b, exactly_one BUF L bs rl hd b =
+  (exists rlb hs body,
+    bs = rlb ++ CRLF ++ Grammar_proofs.with_crlf hs ++ CRLF ++ body /\
+    parse_reqline rlb = Ok rl /\ line_ok BUF rlb /\
+    Forall (fun l => l <> [] /\ line_ok BUF l) hs /\ fold_lines headers_default hs = Ok hd /\
+    h_content_length hd <= L /\ lenN body = h_content_length hd /\ b = delivered_body hd body)).
+(* the connection delivers exactly that request for such a slice, and nothing is left *)
+Theorem C14_exactly_one_is_delivered : forall BUF, (2 <= BUF)%nat -> forall L rlb rl hs hd body,
+  parse_reqline rlb = Ok rl -> line_ok BUF rlb ->
+  Forall (fun l => l <> [] /\ line_ok BUF l) hs -> fold_lines headers_default hs = Ok hd ->
+  h_content_length hd <= L -> lenN body = h_content_length hd ->
+  parse_stream BUF L (rlb ++ CRLF ++ Grammar_proofs.with_crlf hs ++ CRLF ++ body ++ []) =
+  runT BUF L PLine [] ([] ++ interim rl hd ++ [ORequest rl hd (delivered_body hd body)]).
+Proof. intros BUF HB L rlb rl hs hd body. apply (wellformed_delivered BUF HB L rlb rl hs hd body [] []). Qed.
+
+(* ingredients: UTF-8 validity of a block from its lines, split("\r\n") of a join, the position of
+   the first CRLFCRLF *)
+Theorem C14_split_of_join : forall hs, hs <> [] -> Forall (fun l => find_crlf (l ++ [CR]) = None) hs ->
+  split_crlf (join_crlf hs) = hs.
+Proof. exact split_join. Qed.
+Theorem C14_first_crlfcrlf : forall hs body, hs <> [] ->
+  Forall (fun l => l <> [] /\ find_crlf (l ++ [CR]) = None) hs ->
+  find CRLFCRLF (CRLF ++ join_crlf hs ++ CRLFCRLF ++ body) = Some (length (join_crlf hs) + 2)%nat.
+Proof. exact cc_position. Qed.
+Theorem C14_utf8_concat : forall a b, utf8_valid a = true -> utf8_valid (a ++ b) = utf8_valid b.
+Proof. exact utf8_valid_concat. Qed.
 
 Example C14_ex_agree :
   let bs := B"PUT /x HTTP/1.1" ++ CRLF ++ B"Content-Length: 2" ++ CRLF ++ B"X-A: b" ++ CRLF ++ CRLF ++ B"ab" in
@@ -69,3 +100,8 @@ Print Assumptions C14_same_header_rule.
 Print Assumptions C14_conn_reference.
 Print Assumptions C14_oneshot_implies_conn.
 Print Assumptions C14_split_crlf.
+Print Assumptions C14_conn_implies_oneshot.
+Print Assumptions C14_exactly_one_is_delivered.
+Print Assumptions C14_split_of_join.
+Print Assumptions C14_first_crlfcrlf.
+Print Assumptions C14_utf8_concat.
